@@ -1157,6 +1157,9 @@ func runTokenC09(run *ev.Run, c int) {
 				}
 			}
 		}
+		if restartFromOwnExport(run, r, c, b, blocks) {
+			g.resync()
+		}
 		if manyBorn && (b == 17 || b == 60) {
 			// the holder burns a little of every token the chain was born with: more than a hundred burn tallies
 			holder := r.Acc(0)
